@@ -1,7 +1,7 @@
 (* C08 / C14 / C17: the analysed project, the configuration, the fingerprint (= exactly the data
    that generation_cache.rs hash_commands / hash_structs / hash_config serialise to JSON before
    hashing) and the data that reaches the generated files without being hashed.
-   Definitions only. Anchors: /repo/src/build/generation_cache.rs:117-242, /repo/src/models.rs:43-165. *)
+   Definitions only. Anchors (patched tree): src/build/generation_cache.rs hash_commands / hash_structs / hash_config, /repo/src/models.rs:43-165. *)
 From Coq Require Import String Ascii List Arith Bool.
 Require Import TT.Model.Str.
 Import ListNotations.
@@ -81,65 +81,45 @@ Definition analyse (w : sched) (p : project) : analysis :=
 Definition maps_in_order (w : sched) (c : config) : option (list (str * str)) :=
   match g_maps c with None => None | Some l => Some (pick ([], []) l (w_maps w)) end.
 
-(* ---- the fingerprint ---- *)
-(* hash_commands: CommandHashData / ParameterHashData / ChannelHashData, list order = discovery order *)
-Definition hp (p : param) : tree := TN [TA (p_name p); TA (p_type p); TB (p_opt p)].
+(* ---- the fingerprint (generation_cache.rs after the repair C08-C14-hash-inputs) ---- *)
+(* hash_commands: CommandHashData / ParameterHashData / ChannelHashData, commands sorted by (file, name);
+   serde_rename of parameters and serde_rename_all of commands are part of the data *)
+Definition hp (p : param) : tree := TN [TA (p_name p); TA (p_type p); TB (p_opt p); topt (p_rename p)].
 Definition hch (c : chan) : tree := TN [TA (ch_param c); TA (ch_msg c)].
 Definition hc (c : command) : tree :=
-  TN [TA (c_name c); TA (c_file c); TN (map hp (c_params c)); TA (c_ret c); TB (c_async c); TN (map hch (c_chans c))].
-(* hash_structs: StructHashData / FieldHashData, sorted by name *)
-Definition hf (f : field) : tree := TN [TA (f_name f); TA (f_type f); TB (f_opt f); TB (f_pub f)].
-Definition hs (s : struct) : tree := TN [TA (s_name s); TA (s_file s); TB (s_enum s); TN (map hf (s_fields s))].
-(* hash_config: five fields; type_mappings in the iteration order of the map *)
+  TN [TA (c_name c); TA (c_file c); TN (map hp (c_params c)); TA (c_ret c); TB (c_async c); TN (map hch (c_chans c));
+      topt (c_rename_all c)].
+(* hash_structs: StructHashData / FieldHashData, sorted by name; serde_rename, validator_attributes of the
+   fields and serde_rename_all of the struct are part of the data *)
+Definition hf (f : field) : tree :=
+  TN [TA (f_name f); TA (f_type f); TB (f_opt f); TB (f_pub f); topt (f_rename f); topt (f_valid f)].
+Definition hs (s : struct) : tree :=
+  TN [TA (s_name s); TA (s_file s); TB (s_enum s); TN (map hf (s_fields s)); topt (s_rename_all s)].
+(* hash_config: six fields; type_mappings through a BTreeMap = the pairs sorted by key, whatever the
+   iteration order of the HashMap they are collected from; visualize_deps *)
+Definition kv_leb (a b : str * str) : bool := str_leb (fst a) (fst b).
 Definition hmaps (o : option (list (str * str))) : tree :=
-  match o with None => TN [] | Some l => TN [TN (map (fun kv => TN [TA (fst kv); TA (snd kv)]) l)] end.
+  match o with None => TN [] | Some l => TN [TN (map (fun kv => TN [TA (fst kv); TA (snd kv)]) (isort kv_leb l))] end.
 
-Definition fp_cmds (a : analysis) : tree := TN (map hc (a_cmds a)).
-Definition fp_structs (a : analysis) : tree := TN (map hs (isort struct_leb (a_structs a))).
-Definition fp_cfg (w : sched) (c : config) : tree :=
-  TN [TA (g_lib c); TB (g_private c); hmaps (maps_in_order w c); TA (g_pcase c); TA (g_fcase c)].
-
-Definition fp (w : sched) (p : project) (c : config) : tree :=
-  TN [fp_cmds (analyse w p); fp_structs (analyse w p); fp_cfg w c].
-
-(* repaired variant: commands sorted by (file, name), type mappings sorted by key *)
 Definition cmd_leb (a b : command) : bool :=
   if str_eqb (c_file a) (c_file b) then str_leb (c_name a) (c_name b) else str_leb (c_file a) (c_file b).
-Definition fp_cmds_sorted (a : analysis) : tree := TN (map hc (isort cmd_leb (a_cmds a))).
 
-(* ---- data that reaches the output but not the hash, one component per recorded class (classes 1..8) ---- *)
-Definition is_zod (c : config) : bool := str_eqb (g_lib c) (L "zod").
+Definition fp_cmds (a : analysis) : tree := TN (map hc (isort cmd_leb (a_cmds a))).
+Definition fp_structs (a : analysis) : tree := TN (map hs (isort struct_leb (a_structs a))).
+Definition fp_cfg (c : config) : tree :=
+  TN [TA (g_lib c); TB (g_private c); hmaps (g_maps c); TA (g_pcase c); TA (g_fcase c); TB (g_viz c)].
 
-Definition u_field_rename (a : analysis) : tree :=
-  TN (map (fun s => TN (map (fun f => topt (f_rename f)) (s_fields s))) (isort struct_leb (a_structs a))).
-Definition u_struct_rename_all (a : analysis) : tree :=
-  TN (map (fun s => topt (s_rename_all s)) (isort struct_leb (a_structs a))).
-(* validator attributes are rendered in zod mode only *)
-Definition u_validator (a : analysis) (c : config) : tree :=
-  if is_zod c then TN (map (fun s => TN (map (fun f => topt (f_valid f)) (s_fields s))) (isort struct_leb (a_structs a)))
-  else TN [].
-Definition u_cmd_rename_all (a : analysis) : tree := TN (map (fun k => topt (c_rename_all k)) (a_cmds a)).
-Definition u_param_rename (a : analysis) : tree :=
-  TN (map (fun k => TN (map (fun p => topt (p_rename p)) (c_params k))) (a_cmds a)).
+Definition fp (w : sched) (p : project) (c : config) : tree :=
+  TN [fp_cmds (analyse w p); fp_structs (analyse w p); fp_cfg c].
+
+(* ---- data that reaches the output but not the hash: the remaining recorded classes 6 and 8 ---- *)
 Definition u_events (a : analysis) : tree := TN (map (fun e => TN [TA (e_name e); TA (e_payload e)]) (a_events a)).
-Definition u_viz (c : config) : tree := TB (g_viz c).
-(* the text graph prints file:line of every command (dependency_graph.rs:125); line_number is not hashed *)
+(* the text graph prints file:line of every command (dependency_graph.rs); line_number is not hashed *)
 Definition u_lines (a : analysis) (c : config) : tree :=
   if g_viz c then TN (map (fun k => TA (c_line k)) (a_cmds a)) else TN [].
 
-(* the naming convention in force: an explicit rename_all wins over the configured default
-   (template_context.rs compute_parameter_name / compute_field_name) *)
-Definition eff_pcase (c : config) (k : command) : str :=
-  match c_rename_all k with Some r => r | None => g_pcase c end.
-Definition eff_fcase (c : config) (s : struct) : str :=
-  match s_rename_all s with Some r => r | None => g_fcase c end.
-Definition v_pcase (a : analysis) (c : config) : tree := TN (map (fun k => TA (eff_pcase c k)) (a_cmds a)).
-Definition v_fcase (a : analysis) (c : config) : tree :=
-  TN (map (fun s => TA (eff_fcase c s)) (isort struct_leb (a_structs a))).
-
 Definition unhashed (w : sched) (p : project) (c : config) : list tree :=
-  let a := analyse w p in
-  [u_field_rename a; u_struct_rename_all a; u_validator a c; u_cmd_rename_all a; u_param_rename a; u_events a; u_viz c; u_lines a c].
+  let a := analyse w p in [u_events a; u_lines a c].
 
 (* ---- the files of a forced generation, in write order, as views of the data they are rendered from ----
    ts/generator.rs:176-199, zod/generator.rs:297-317 (types, commands, [events], index),
@@ -155,10 +135,9 @@ Definition has_events (a : analysis) : bool := match a_events a with [] => false
 Definition files (w : sched) (p : project) (c : config) : list (fname * tree) :=
   let a := analyse w p in
   let lib := TA (g_lib c) in
-  [ (Types, TN [lib; fp_cmds a; fp_structs a; fp_cfg w c;
-                u_field_rename a; v_fcase a c; u_validator a c; v_pcase a c; u_param_rename a]);
-    (Commands, TN [lib; fp_cmds a; fp_cfg w c]) ]
-  ++ (if has_events a then [(Events, TN [lib; u_events a; fp_cfg w c])] else [])
+  [ (Types, TN [lib; fp_cmds a; fp_structs a; fp_cfg c]);
+    (Commands, TN [lib; fp_cmds a; fp_cfg c]) ]
+  ++ (if has_events a then [(Events, TN [lib; u_events a; fp_cfg c])] else [])
   ++ [ (Index, TN [lib; TB (has_events a)]) ]
   ++ (if g_viz c then [ (GraphTxt, TN [fp_cmds a; fp_structs a; u_lines a c]); (GraphDot, TN [fp_cmds a; fp_structs a]) ] else []).
 
